@@ -166,7 +166,10 @@ def gen_lengths(rng, b, small):
     return cands
 
 
-def gen_world(rng, cfg, *, nroots=1, hostile=True, links=True, max_files=24, families=None, min_len=0):
+HOSTILE_ROOT_NAMES = [b"r %d" , b"r'%d", b"r\xc3\xa9'x%d", b"r$%d \xe6\x97\xa5", b"r\t%d\xc4\x99", b"r\"%d\"", b"r\\%d", b"r%d\xc5\xbc\xc3\xb3'\xc5\x82w", b"-r%d"]
+
+
+def gen_world(rng, cfg, *, nroots=1, hostile=True, links=True, max_files=24, families=None, min_len=0, hostile_roots=False):
     """World with `families` content families; every family has exact copies and near copies that
     differ in one byte at a stage boundary offset."""
     b = cfg["bounds"]
@@ -175,6 +178,9 @@ def gen_world(rng, cfg, *, nroots=1, hostile=True, links=True, max_files=24, fam
     names = Names(rng, fams)
     w = World()
     roots = ["r%d" % (i + 1) for i in range(nroots)]
+    if hostile_roots:
+        # root names end up as arguments in the report header's command line
+        roots = [b2s(rng.choice(HOSTILE_ROOT_NAMES) % (i + 1)) for i in range(nroots)]
     dirs = []
     for r in roots:
         w.add_dir(r)
